@@ -256,7 +256,11 @@ func (w *printer) item(it Item) {
 		} else {
 			w.out[i].NewLine = true
 		}
-		w.mark(x.ID, "tick", w.tok("`"+strings.Join(x.Lines, "\n")+"`"))
+		sep := "\n"
+		if x.CRLF {
+			sep = "\r\n"
+		}
+		w.mark(x.ID, "tick", w.tok("`"+strings.Join(x.Lines, sep)+"`"))
 		w.nl()
 		w.end(x.ID, s)
 	}
